@@ -546,6 +546,7 @@ func (s *connectableObservableImpl[T]) ConnectWithContext(ctx context.Context) S
 	if s.subscription == nil || s.subscription.IsClosed() {
 		s.subscription = s.source.SubscribeWithContext(ctx, s.subject)
 		s.mu.Unlock()
+		verifPoint("connectable.connect.unlocked")
 		s.subscription.Add(func() {
 			if s.config.ResetOnDisconnect {
 				s.subject = s.config.Connector()
